@@ -126,9 +126,11 @@ impl BlteFile {
     /// Performance: Pre-allocates the output buffer based on the total
     /// decompressed size from chunk headers or chunk metadata.
     pub fn decompress(&self) -> BlteResult<Vec<u8>> {
-        // Performance: Pre-allocate with estimated total decompressed size
+        // Performance: Pre-allocate with estimated total decompressed size.
+        // The estimate comes from unverified header fields, so it is only a
+        // hint and is capped; the buffer still grows to whatever is produced.
         let total_size = self.estimate_decompressed_size();
-        let mut result = Vec::with_capacity(total_size);
+        let mut result = Vec::with_capacity(total_size.min(compression::MAX_DECOMPRESSION_SIZE));
 
         for (index, chunk) in self.chunks.iter().enumerate() {
             let decompressed = chunk.decompress(index)?;
@@ -156,9 +158,11 @@ impl BlteFile {
             return Err(BlteError::SingleChunkEncrypted);
         }
 
-        // Performance: Pre-allocate with estimated total decompressed size
+        // Performance: Pre-allocate with estimated total decompressed size.
+        // The estimate comes from unverified header fields, so it is only a
+        // hint and is capped; the buffer still grows to whatever is produced.
         let total_size = self.estimate_decompressed_size();
-        let mut result = Vec::with_capacity(total_size);
+        let mut result = Vec::with_capacity(total_size.min(compression::MAX_DECOMPRESSION_SIZE));
 
         for (index, chunk) in self.chunks.iter().enumerate() {
             let decompressed = if chunk.mode == CompressionMode::Encrypted {
